@@ -53,4 +53,5 @@ run C18 && mut C18 x/pairing/keeper/msg_server_relay_payment.go 'relay.CuSum+bad
 run C32 && mut C32 protocol/chainlib/jsonRPC.go 'extensionInfo.LatestBlock > 126 && ' ''
 run C31 && mut C31 protocol/chainlib/jsonRPC.go '			earliestRequestedBlock = parsedBlock
 		} else {' '		} else {'
+run C39 && mut C39 protocol/rpcprovider/rpcprovider_server.go '	if requestSession.LavaChainId != rpcps.lavaChainID {' '	if requestSession.LavaChainId != rpcps.lavaChainID && requestSession.LavaChainId != "" {'
 exit 0
